@@ -43,4 +43,5 @@ def main():
     print(json.dumps({'results': out}))
 
 
-main()
+if __name__ == "__main__":
+    main()
